@@ -18,14 +18,20 @@ RULE = ('printing: Integer/Single/Double byte patterns from vlib.mbf.gen_float, 
 EXPLANATION = ('theorems (PcbV.Props.C07): literal type rule of str_to_decimal (sigil, exponent letter, significant '
                'digit count) and integer-first rule of from_repr, exact decimal text and parse-back of the Integer type, '
                'digit bound of to_decimal (mantissa < 10^digits through both loops and carries), notation choice and '
-               'exponent field of to_str, zero mantissa, exp10=0 fragment of the parse bound; the <1 unit print bound and '
-               '<1 ulp parse bound are stated and checked by the oracle only; correspondence: to_repr / to_decimal / '
+               'exponent field of to_str, zero mantissa; one-step error of _mul10_den (relative <= 17/(16 den_mask)) and '
+               '_div10_den (<= 17/(8 den_mask)), lifted over |exp10| steps and the closing _normalise to '
+               'parse_error_bound_weak ((1/2+|e|/116) ulp for e>=0, (1/2+|e|/58) ulp for e<0, |m|<2^w, |e|<=100) and '
+               'parse_error_bound_partial (<1 ulp for -28<=e<=57), print_scaling_partial (error of the two scaling loops '
+               'of to_decimal); the <1 ulp parse bound for e<=-29 and the <1 unit print bound (carries + final '
+               'rounding) are stated and checked by the oracle only; correspondence: to_repr / to_decimal / '
                'str_to_decimal / from_decimal / from_repr / notation helpers of the real code against the compiled Lean '
                'model; oracle: exact Fraction comparison of shown vs stored and parsed vs written value, digit '
                'count, exact integers, type rule, & literals, also through Session.execute (PRINT, STR$, WRITE, VAL, '
                'program literals + LIST + re-entry, READ/DATA, STR$/VAL chains)')
 TRUSTED_BASE = ['model PcbV.Model.Decimal (+ PcbV.Model.Mbf) is a hand transcription of numbers.py to_decimal/to_str/'
-                'str_to_decimal/from_decimal, Integer.to_str/from_str and values.py from_repr/to_repr']
+                'str_to_decimal/from_decimal, Integer.to_str/from_str and values.py from_repr/to_repr',
+                'Mathlib modules for rational arithmetic (Linarith, Ring, NormNum, Positivity, ordered fields) in the '
+                'lemma files Lemmas/C04Rat, DecimalErr, DecimalChain and in Props/C07']
 ASSUMPTIONS = ['Python int(bytes, base) on plain digit strings and b"%d" formatting behave as documented',
                '& literals that are not plain hex/octal digit strings (Python int() extras such as "_", "+", "0x") '
                'are outside the model (they belong to C01)']
